@@ -192,6 +192,18 @@ func getParentMethodTVisited(
 				return returnT
 			}
 
+			// the modules the extended module includes answer as well
+			if isStatic {
+				returnT :=
+					getParentMethodTVisited(
+						extendFrame, parentNode.Class, method, isPrivate, false, visited,
+					)
+
+				if returnT != nil {
+					return returnT
+				}
+			}
+
 			continue
 		}
 
@@ -213,6 +225,18 @@ func getParentMethodTVisited(
 				returnT := methodT.DeepCopy()
 				returnT.IsInclude = true
 				return returnT
+			}
+
+			// the modules the included module includes answer as well
+			if !isStatic {
+				returnT :=
+					getParentMethodTVisited(
+						includeFrame, parentNode.Class, method, isPrivate, false, visited,
+					)
+
+				if returnT != nil {
+					return returnT
+				}
 			}
 
 			continue
